@@ -291,6 +291,20 @@ int main(int argc, char** argv)
       return run_lp(lp, cfg1, c, pass == 0);
    }, descA(&fa, &cfg1), o, sigsfx(&cfg1));
 
+   {
+      // phase A2: mixed-magnitude coefficients (8, 1/4): the scalers produce non-trivial row and column exponents, so every unscaling step of the solution path does real work
+      FamilySet fs;
+      fs.add(famT(2, 2, {-1, 0, 8, 0.25}, {-1, 1}, {0, 3}, {0, 1, 3}));
+      if(thorough) fs.add(famT(3, 2, {0, 1, 8, 0.25}, {-1, 1}, {0, 3}, {0, 3}, 5));
+      static FamilySet fsS;
+      fsS = fs;
+      rep.phase("S (coefficients 8 and 1/4) x dev<=1", fsS.total, [&](uint64_t idx, int pass, Ctx & c) -> uint64_t
+      {
+         TinyLP lp;
+         if(!fsS.get(idx, lp)) return 0;
+         return run_lp(lp, cfg1, c, pass == 0);
+      }, descA(&fsS, &cfg1), o, sigsfx(&cfg1));
+   }
    if(thorough)
    {
       // phase B: Q x all configurations with exactly 2 deviations
